@@ -147,3 +147,115 @@ Lemma tie_heap_replace : TIE_heap_replace =
    (0, "siftdown(h,0)");
    (0, "return(returnitem)")].
 Proof. reflexivity. Qed.
+
+(* src/mtbl_merge.c: init_dso *)
+Lemma tie_merge_tool_init_dso : TIE_merge_tool_init_dso =
+  [(0, "merge_dso_path=getenv(""MTBL_MERGE_DSO"")");
+   (0, "merge_dso_prefix=getenv(""MTBL_MERGE_FUNC_PREFIX"")");
+   (0, "if(merge_dso_path==NULL)");
+   (1, "fprintf(stderr,""Error:MTBL_MERGE_DSOenvironmentvariablenotset.\n\n"")");
+   (1, "usage()");
+   (0, "if(merge_dso_prefix==NULL)");
+   (1, "fprintf(stderr,""Error:MTBL_MERGE_FUNC_PREFIXenvironmentvariablenotset.\n\n"")");
+   (1, "usage()");
+   (0, "dlerror()");
+   (0, "void*handle=dlopen(merge_dso_path,RTLD_NOW)");
+   (0, "if(handle==NULL)");
+   (1, "fprintf(stderr,""Error:dlopen()failed:%s\n"",dlerror())");
+   (1, "exit(EXIT_FAILURE)");
+   (0, "ubuf*func_name=ubuf_init(0)");
+   (0, "ubuf_append(func_name,(constuint8_t*)merge_dso_prefix,strlen(merge_dso_prefix))");
+   (0, "ubuf_append(func_name,(constuint8_t*)""_func"",sizeof(""_func""))");
+   (0, "user_func_merge=dlsym(handle,(constchar*)ubuf_data(func_name))");
+   (0, "if(user_func_merge==NULL)");
+   (1, "fprintf(stderr,""Error:usermergefunctionrequiredbutnotfoundinDSO.\n\n"")");
+   (1, "usage()");
+   (0, "ubuf_clip(func_name,0)");
+   (0, "ubuf_append(func_name,(constuint8_t*)merge_dso_prefix,strlen(merge_dso_prefix))");
+   (0, "ubuf_append(func_name,(constuint8_t*)""_init_func"",sizeof(""_init_func""))");
+   (0, "user_func_init=dlsym(handle,(constchar*)ubuf_data(func_name))");
+   (0, "if(user_func_init!=NULL)user_clos=user_func_init()");
+   (0, "ubuf_clip(func_name,0)");
+   (0, "ubuf_append(func_name,(constuint8_t*)merge_dso_prefix,strlen(merge_dso_prefix))");
+   (0, "ubuf_append(func_name,(constuint8_t*)""_free_func"",sizeof(""_free_func""))");
+   (0, "user_func_free=dlsym(handle,(constchar*)ubuf_data(func_name))");
+   (0, "ubuf_destroy(&func_name)")].
+Proof. reflexivity. Qed.
+
+(* src/mtbl_merge.c: init_mtbl *)
+Lemma tie_merge_tool_init_mtbl : TIE_merge_tool_init_mtbl =
+  [(0, "structmtbl_merger_options*mopt");
+   (0, "structmtbl_writer_options*wopt");
+   (0, "mopt=mtbl_merger_options_init()");
+   (0, "wopt=mtbl_writer_options_init()");
+   (0, "mtbl_merger_options_set_merge_func(mopt,merge_func,user_clos)");
+   (0, "mtbl_writer_options_set_compression(wopt,opt_compression_type)");
+   (0, "if(opt_compression_level!=DEFAULT_COMPRESS_LEVEL)mtbl_writer_options_set_compression_level(wopt,opt_compression_level)");
+   (0, "mtbl_writer_options_set_threadpool(wopt,opt_threadpool)");
+   (0, "mtbl_writer_options_set_block_size(wopt,opt_block_size)");
+   (0, "merger=mtbl_merger_init(mopt)");
+   (0, "assert(merger!=NULL)");
+   (0, "fprintf(stderr,""%s:openingoutputfile%s\n"",program_name,mtbl_output_fname)");
+   (0, "writer=mtbl_writer_init(mtbl_output_fname,wopt)");
+   (0, "if(writer==NULL)");
+   (1, "fprintf(stderr,""Error:mtbl_writer_init()failed.\n\n"")");
+   (1, "usage()");
+   (0, "mtbl_merger_options_destroy(&mopt)");
+   (0, "mtbl_writer_options_destroy(&wopt)")].
+Proof. reflexivity. Qed.
+
+(* src/mtbl_merge.c: merge *)
+Lemma tie_merge_tool_merge : TIE_merge_tool_merge =
+  [(0, "constuint8_t*key,*val");
+   (0, "size_tlen_key,len_val");
+   (0, "structmtbl_iter*it");
+   (0, "it=mtbl_source_iter(mtbl_merger_source(merger))");
+   (0, "assert(it!=NULL)");
+   (0, "while(mtbl_iter_next(it,&key,&len_key,&val,&len_val)==mtbl_res_success)");
+   (1, "mtbl_resres=mtbl_writer_add(writer,key,len_key,val,len_val)");
+   (1, "assert(res==mtbl_res_success)");
+   (1, "if((++count%STATS_INTERVAL)==0)print_stats()");
+   (0, "mtbl_iter_destroy(&it)");
+   (0, "mtbl_merger_destroy(&merger)");
+   (0, "mtbl_writer_destroy(&writer)")].
+Proof. reflexivity. Qed.
+
+(* src/mtbl_merge.c: main *)
+Lemma tie_merge_tool_main : TIE_merge_tool_main =
+  [(0, "setlocale(LC_ALL,"""")");
+   (0, "program_name=argv[0]");
+   (0, "opt_block_size=get_block_size()");
+   (0, "intc");
+   (0, "while((c=getopt(argc,argv,""b:c:l:t:""))!=-1)");
+   (1, "switch(c)");
+   (2, "case'b':if(!parse_arg_block_size(optarg))usage()");
+   (2, "break");
+   (2, "case'c':if(!parse_arg_compression(optarg))usage()");
+   (2, "break");
+   (2, "case'l':if(!parse_arg_compression_level(optarg))usage()");
+   (2, "break");
+   (2, "case't':if(!parse_arg_thread_count(optarg))usage()");
+   (2, "break");
+   (2, "default:usage()");
+   (0, "if(argc-optind<2)usage()");
+   (0, "mtbl_output_fname=argv[argc-1]");
+   (0, "init_dso()");
+   (0, "init_mtbl()");
+   (0, "constsize_tn_readers=argc-1-optind");
+   (0, "structmtbl_reader*readers[n_readers]");
+   (0, "for(size_ti=0;i<n_readers;i++)");
+   (1, "constchar*fname=argv[i+optind]");
+   (1, "fprintf(stderr,""%s:openinginputfile%s\n"",program_name,fname)");
+   (1, "readers[i]=mtbl_reader_init(fname,NULL)");
+   (1, "if(readers[i]==NULL)");
+   (2, "fprintf(stderr,""Error:mtbl_reader_init()failed.\n\n"")");
+   (2, "usage()");
+   (1, "mtbl_merger_add_source(merger,mtbl_reader_source(readers[i]))");
+   (0, "my_timespec_get(&start_time)");
+   (0, "merge()");
+   (0, "for(size_ti=0;i<n_readers;i++)mtbl_reader_destroy(&readers[i])");
+   (0, "if(user_func_free!=NULL)user_func_free(user_clos)");
+   (0, "mtbl_threadpool_destroy(&opt_threadpool)");
+   (0, "print_stats()");
+   (0, "return(EXIT_SUCCESS)")].
+Proof. reflexivity. Qed.
